@@ -231,33 +231,44 @@ func GetId(t vocab.Type) (*url.URL, error) {
 	return nil, fmt.Errorf("cannot determine id of activitystreams value")
 }
 
-// objectMissing returns true if the 'object' property holds no IRI and no
-// value: it is absent, empty, or has only elements that are neither, which is
-// what a JSON null is deserialized to.
+// objectMissing returns true if the 'object' property is absent, empty, or
+// holds nothing but JSON nulls. (A null is deserialized to an element that is
+// neither an IRI nor a value - as is a value of a type the vocabularies do not
+// define, which is not missing: the two are told apart by what they are
+// written back as.)
 func objectMissing(op vocab.ActivityStreamsObjectProperty) bool {
-	if op == nil {
+	if op == nil || op.Len() == 0 {
 		return true
 	}
-	for iter := op.Begin(); iter != op.End(); iter = iter.Next() {
-		if iter.IsIRI() || iter.GetType() != nil {
-			return false
-		}
-	}
-	return true
+	v, err := op.Serialize()
+	return err == nil && onlyNulls(v)
 }
 
-// targetMissing returns true if the 'target' property holds no IRI and no
-// value, like objectMissing.
+// targetMissing returns true if the 'target' property is absent, empty, or
+// holds nothing but JSON nulls, like objectMissing.
 func targetMissing(tp vocab.ActivityStreamsTargetProperty) bool {
-	if tp == nil {
+	if tp == nil || tp.Len() == 0 {
 		return true
 	}
-	for iter := tp.Begin(); iter != tp.End(); iter = iter.Next() {
-		if iter.IsIRI() || iter.GetType() != nil {
-			return false
+	v, err := tp.Serialize()
+	return err == nil && onlyNulls(v)
+}
+
+// onlyNulls returns true for a serialized property value that is null or a
+// list of nulls.
+func onlyNulls(v interface{}) bool {
+	switch x := v.(type) {
+	case nil:
+		return true
+	case []interface{}:
+		for _, e := range x {
+			if e != nil {
+				return false
+			}
 		}
+		return true
 	}
-	return true
+	return false
 }
 
 // getInboxForwardingValues obtains the 'inReplyTo', 'object', 'target', and
